@@ -461,13 +461,13 @@ func (fx *FuncCtx) exitLoop(li *loopInfo, st *State, cond string) {
 		return
 	}
 	spec := fx.ct.Loops[li.ordinal]
-	if spec == nil || (len(spec.Steps) == 0 && len(spec.Hints) == 0) {
+	if spec == nil || (len(spec.Steps) == 0 && len(spec.Hints) == 0 && len(spec.ExitHints) == 0) {
 		return
 	}
 	at := st.clone()
 	at.R = cond
 	fx.exitN++
-	for _, c := range spec.Hints {
+	for _, c := range append(append([]*Clause(nil), spec.Hints...), spec.ExitHints...) {
 		// the lemmas also hold (and are proved) on the edges that leave the loop mid-iteration
 		if henv := fx.clauseEnv(at, li.headSt, nil); !hintInScope(fx, henv, fx.curBlock, c) {
 			continue
@@ -826,6 +826,15 @@ func (fx *FuncCtx) store(st *State, a *Addr, v *Val) {
 			nv = fx.update("(select "+h+" "+a.Base+")", a.Root, a.Path, v.T)
 		}
 		fx.heapSet(st, name, cs, "(store "+h+" "+a.Base+" "+nv+")")
+		if arr, isArr := a.Root.Underlying().(*types.Array); isArr && len(a.Path) == 0 {
+			// a heap array's elements live in the element heap at the same reference (that is where
+			// indexing and slicing read them): a whole-array assignment updates that row too
+			if es := fx.u.sortOf(a.Root); strings.HasPrefix(es, "(Array ") {
+				ename, ecs := elemComp(fx.u, arr.Elem())
+				eh := fx.heapGet(st, ename, ecs)
+				fx.heapSet(st, ename, ecs, "(store "+eh+" "+a.Base+" "+nv+")")
+			}
+		}
 	case AGlobal:
 		name := globComp(a.Glob)
 		s := fx.u.sortOf(a.Root)
